@@ -97,6 +97,9 @@ def events(rng, homs, thorough):
         yield "jac", f, N, (lambda T=T: b.tr2jac(T)), "base.tr2jac"
         yield "jac", f, N, (lambda T=T: SE3(T).jacob()), "SE3.jacob"
         yield "jac_same", f, N * N * (D // N), (lambda T=T: b.tr2jac(T, samebody=True)), "base.tr2jac(samebody)"
+        # the flag given as another truthy value / positionally
+        yield "jac_same", f, N * N * (D // N), (lambda T=T: b.tr2jac(T, samebody=1)), "base.tr2jac(samebody=1)"
+        yield "jac_same", f, N * N * (D // N), (lambda T=T: b.tr2jac(T, np.bool_(True))), "base.tr2jac(T,numpy-bool)"
 
 
 def series_expm(A):
